@@ -151,7 +151,9 @@ def make_posterior(flags, batches, bins, betas=None, ess_trim="9/10"):
         x, w, logl = out[0], out[1], out[2]
         allx = smp.state.get_history("x", flat=True)[:, 0]
         alll = smp.state.get_history("logl", flat=True)
-        logw_all, _ = smp.state.compute_logw_and_logz(1.0)
+        from vf.props.c04 import mis_reference
+        logw_all, _ = mis_reference(smp.state, 1.0)  # independent of the function under test
+        logw_all = logw_all - (logw_all.max() + math.log(np.exp(logw_all - logw_all.max()).sum()))  # normalised, as posterior() reports them
         bad, why = False, ""
         if len(set(lens)) != 1:
             bad, why = True, f"output lengths differ: {lens}"
@@ -292,7 +294,8 @@ def make_termination(batches, betas, D=1):
         st.set_current("beta", b)
         smp._core.n_total = nt_
         cont = bool(smp._core._not_termination())
-        logw, _ = st.compute_logw_and_logz(1.0)
+        from vf.props.c04 import mis_reference
+        logw, _ = mis_reference(st, 1.0)  # independent of the function under test
         w = np.exp(logw - logw.max())
         ess = w.sum() ** 2 / (w ** 2).sum()
         done = (1 - b < 1e-4) and (ess >= nt_)
@@ -357,7 +360,8 @@ def make_evidence(batches, betas, D=1):
         core._not_termination = lambda: False
         smp.run(n_total=1, progress=False)
         ev = smp.evidence()[0]
-        _, ref = st.compute_logw_and_logz(1.0)
+        from vf.props.c04 import mis_reference
+        _, ref = mis_reference(st, 1.0)  # independent of the function under test
         return {"reproduced": not math.isclose(ev, ref, rel_tol=1e-12, abs_tol=1e-9), "signature": "evidence-after-run",
                 "payload": {"evidence": ev, "recomputed": ref, "beta_at_termination": 0.99995},
                 "what": f"run() ending at beta=0.99995: evidence() = {ev} but MIS evidence at beta=1 from the history = {ref}"}
